@@ -1098,7 +1098,9 @@ func runC12(r *Runner) string {
 		probe(base, "tpl/exact")
 		// every position: every value (thorough) or neighbours + a few values (quick)
 		for pos := 0; pos < len(base); pos++ {
-			vals := []byte{base[pos] + 1, base[pos] - 1, base[pos] ^ 0x80, 0x00, byte(r.rng.Intn(256))}
+			// neighbours, the sign bit, zero, a random value, and the edges of the small-integer opcodes (OP_1NEGATE,
+			// OP_RESERVED, OP_1, OP_16, OP_NOP: a witness version is one of them)
+			vals := []byte{base[pos] + 1, base[pos] - 1, base[pos] ^ 0x80, 0x00, byte(r.rng.Intn(256)), 0x4f, 0x50, 0x51, 0x52, 0x60, 0x61}
 			if r.thorough {
 				vals = vals[:0]
 				for v := 0; v < 256; v++ {
